@@ -13,16 +13,17 @@
 using namespace c09;
 
 // ---- tolerances, in units of eps (calibration: thorough tier, unchanged tree; see c09.py)
-static const double C_SHEAR_POINT = 8;   // |got-ref| <= C eps sum|terms|  (3-4 term sum of products; worst seen 0.87)
-static const double C_ROT2_ENTRY  = 4;   // |entry - cosl/sinl| <= C eps             (worst seen 0.50 = correctly rounded)
-static const double C_ROT2_ORTHO  = 8;   // |row.row - delta|, |det-1|               (worst seen 0.94)
-static const double C_ROT2_POINT  = 8;   // |p*M - ref| <= C eps sum|p_i|            (worst seen 0.94)
-static const double C_AA_ENTRY    = 16;  // setAxisAngle entries vs Rodrigues          (worst seen 1.9)
-static const double C_AA_ORTHO    = 24;  // orthonormality / det of setAxisAngle       (worst seen 2.9)
-static const double C_AA_POINT    = 16;  // point action of setAxisAngle               (worst seen 1.7)
-static const double C_EU_ENTRY    = 16;  // setEulerAngles entries vs Rx*Ry*Rz         (worst seen 1.7)
-static const double C_EU_ORTHO    = 24;  // (worst seen 2.6)
-static const double C_EU_POINT    = 16;  // (worst seen 1.9)
+// (worst ratio seen = full thorough tier, seed 1, 0.8-1.2*10^8 cases per sub-check; every bound >= 8x that)
+static const double C_SHEAR_POINT = 12;  // |got-ref| <= C (eps sum|terms| + underflow)   worst seen 1.42
+static const double C_ROT2_ENTRY  = 4;   // |entry - cosl/sinl| <= C eps                  worst seen 0.27
+static const double C_ROT2_ORTHO  = 8;   // |row.row - delta|, |det-1| <= C eps           worst seen 0.73
+static const double C_ROT2_POINT  = 12;  // |p*M - ref| <= C eps sum|p_i|                 worst seen 1.22
+static const double C_AA_ENTRY    = 64;  // setAxisAngle entries vs Rodrigues             worst seen 6.6 (tiny axes, Vec3::lengthTiny path)
+static const double C_AA_ORTHO    = 128; // orthonormality / det / handedness             worst seen 13.2
+static const double C_AA_POINT    = 64;  // point action of setAxisAngle                  worst seen 6.5
+static const double C_EU_ENTRY    = 12;  // setEulerAngles entries vs Rx*Ry*Rz            worst seen 1.41
+static const double C_EU_ORTHO    = 32;  //                                               worst seen 3.2
+static const double C_EU_POINT    = 24;  //                                               worst seen 2.06
 
 // ================================================================== translation / scale / shear / translation()
 static const char* const AFF_FN[12] = {"Matrix33.setTranslation", "Matrix33.setScale(T)",    "Matrix33.setScale(Vec2)",
